@@ -9,8 +9,7 @@ import os
 import re
 
 from ..core.engine import Res
-from ..core.rules import (struct_map, must_pass, must_pass_from, guard, wire, order, covers, writes_after_guard, errset,
-                          guard_inventory, err_inventory, inventory_check)
+from ..core.rules import (struct_map, must_pass, must_pass_from, guard, wire, order, covers, writes_after_guard, errset)
 from ..core.fa_rule import fa_for
 from ..core.panics import panic_audit, TABLES
 
@@ -177,10 +176,10 @@ def run(ctx):
               lambda P_: wire(P_, 'message_verifier::verify_auth_content_signature', r'Signable::verify$', 3, r'MessageSigningContext\{group_context: Option::Some'), floor=1)
     # coverage of signed / MACed / AAD structures
     C = [
-        ('key package TBS', 'KeyPackage as Signable::signable_content', 'mls_rs::key_package::KeyPackageData', 'mls_rs::key_package::KeyPackage', ('signature',), None),
-        ('leaf node TBS', 'LeafNode as Signable::signable_content', 'LeafNodeTBS', 'LeafNode', ('signature',),
+        ('key package TBS', 'KeyPackage as Signable::signable_content', 'mls_rs::key_package::KeyPackageData', 'mls_rs::key_package::KeyPackage', ('signature'), None),
+        ('leaf node TBS', 'LeafNode as Signable::signable_content', 'LeafNodeTBS', 'LeafNode', ('signature'),
          {'group_id': r'^context\.group_id', 'leaf_index': r'^context\.leaf_index'}),
-        ('group info TBS', 'GroupInfo as Signable::signable_content', 'SignableGroupInfo', 'GroupInfo', ('signature',), None),
+        ('group info TBS', 'GroupInfo as Signable::signable_content', 'SignableGroupInfo', 'GroupInfo', ('signature'), None),
     ]
     for name, fq, T, S, ex, extra in C:
         ctx.check('COVERS', name, lambda P_, fq=fq, T=T, S=S, ex=ex, extra=extra: covers(P_, fq, T, S, ex, 'self', extra), floor=3)
@@ -218,29 +217,6 @@ def run(ctx):
         ctx.check('WIRE', 'content AAD (receive) is rebuilt from the received message',
                   lambda P_: wire(P_, 'CiphertextProcessor::open', r'MlsEncode::mls_encode_to_vec$', 0, r'PrivateContentAAD|ciphertext'), floor=1)
     # inventories
-    gi, ei = _load('guard_inventory.json').get(cfg), _load('err_inventory.json').get(cfg)
-
-    def inv_g(P_):
-        if gi is None:
-            r = Res()
-            return r.bad('baseline-missing', 'no guard inventory for configuration ' + cfg)
-        base = {k: v for k, v in gi.items() if re.search(VERIFY_FNS, k)}
-        cur = guard_inventory(P_, VERIFY_FNS)
-        return inventory_check(cur, base, 'guard', lambda fnq, k, n, have, cur_:
-                               'verification function `%s` had %d guard(s) [fails-when %s] on the reviewed tree, now %d '
-                               '(now: %s): a check was removed, its relation / polarity changed, or it raises another error'
-                               % (fnq, n, k, have, cur_))
-    ctx.check('GUARD-INVENTORY', 'verification pipeline', inv_g, floor=30 if cfg != 'B' else 20)
-
-    def inv_e(P_):
-        if ei is None:
-            r = Res()
-            return r.bad('baseline-missing', 'no error inventory for configuration ' + cfg)
-        base = {k: v for k, v in ei.items() if re.search(VERIFY_FNS, k)}
-        cur = err_inventory(P_, VERIFY_FNS)
-        return inventory_check(cur, base, 'error', lambda fnq, k, n, have, cur_:
-                               'verification function `%s` no longer raises %s (it did on the reviewed tree; now raises %s)' % (fnq, k, cur_))
-    ctx.check('ERR-INVENTORY', 'verification pipeline', inv_e, floor=40 if cfg != 'B' else 25)
     ents = [q for q in ('Group::process_incoming_message', 'Client::join_group', 'ExternalGroup::process_incoming_message',
                         'ExternalClient::observe_group') if P.has_fn(q)]
     ctx.check('ERRSET', 'verification errors reachable from the attack surface',
